@@ -26,6 +26,7 @@ def check(chk, thorough=False):
     chk.run('C12.i', 'R-FLOW', 'the AAD binds target data and metadata under their scope bits (= C03.b)', lambda ob: __import__('sa.props.c03', fromlist=['c03b']).c03b(tree, ob), floor=7)
     chk.run('C12.j', 'R-NOPATH', 'no security block escapes verification by not being found: every block of a received bundle is entered into the type index (whatever its number), and a block that cannot be decoded fails the bundle instead of vanishing', lambda ob: c12j(tree, ob), floor=2)
     chk.run('C12.k', 'R-FRESH', 'key stores, associations and contexts belong to their application object (created per instance, no shared default objects)', lambda ob: (__import__('sa.props.common', fromlist=['per_instance_state', 'fresh_defaults']).per_instance_state(tree, ob, 'bp/app/bpsec.py', ('Bpsec', 'CoseContext')), __import__('sa.props.common', fromlist=['per_instance_state', 'fresh_defaults']).fresh_defaults(tree, ob, ['bp/app/bpsec.py', 'bp/app/base.py', 'bp/crypto.py'])), floor=3)
+    chk.run('C12.l', 'R-TRUTH', 'what is verified is what arrived: decoding keeps every bit of flags and values (= C02.e)', lambda ob: __import__('sa.props.c02', fromlist=['c02e']).c02e(tree, ob), floor=20)
     chk.run('C12.h', 'R-ORDER', 'a verification key comes only from the symmetric store, or from a validated chain whose node id MATCHED the security source (= C03.d)', lambda ob: _c03d(tree, ob), floor=3)
     chk.run('C12.f', 'R-TYPE', 'the recorded deletion reason is a reason code (integer) on every path', lambda ob: c12f(tree, ob), floor=2)
 
@@ -352,11 +353,29 @@ def c12j(tree, ob):
     else:
         ob.violate(UTIL, fv.qual, 'for blk in blocks: ... continue ... self._block_types(key).append(blk)', 'a block can be skipped before it is entered into the type index: a security block that is not '
                    'indexed (e.g. one with a null block number) is never verified, and the bundle it was meant to protect is delivered', lp)
-    fl = FuncView(tree, 'scapy_cbor/fields.py', 'PacketListField.getfield')
-    hs = [h for h in walk_local(fl.func) if isinstance(h, ast.ExceptHandler)]
-    swallow = [h for h in hs if not (h.body and isinstance(h.body[-1], ast.Raise) and h.body[-1].exc is None) and not any(isinstance(x, ast.Raise) and enclosing(x, (ast.If,)) is None for x in h.body)]
-    if swallow:
-        ob.violate('scapy_cbor/fields.py', fl.qual, 'except {}: ... (no unconditional re-raise)'.format(src(swallow[0].type) if swallow[0].type is not None else ''), 'an item of a packet list that cannot be decoded is skipped: a '
-                   'malformed security block disappears from the decoded bundle, nothing is left to verify, and the bundle is delivered', swallow[0])
-    else:
-        ob.site('scapy_cbor/fields.py', fl.func, 'PacketListField.getfield lets a decode failure of an item fail the whole list')
+    decode_fails_loudly(tree, ob)
+
+
+def decode_fails_loudly(tree, ob):
+    ''' the generic CBOR decode layer does not paper over an item it cannot decode: a broad handler (Exception / bare) in a
+    decode function of scapy_cbor that goes on -- skipping the item, leaving the field at its default -- makes a malformed or
+    corrupted structure decode as a well-formed other one (a security block disappears, a reason code becomes 0, a
+    corrupted block re-encodes as the original). '''
+    from ..cfg import handler_names
+    n = 0
+    for rel in ('scapy_cbor/fields.py', 'scapy_cbor/packets.py'):
+        for (r, qual, func) in tree.all_functions([rel]):
+            if func.name not in ('getfield', 'do_dissect', 'dissect', 'm2i', 'do_dissect_payload', 'pre_dissect', 'post_dissect'):
+                continue
+            n += 1
+            for h in [x for x in walk_local(func) if isinstance(x, ast.ExceptHandler)]:
+                names = [(nm or 'BaseException').split('.')[-1] for nm in handler_names(h)]
+                if not any(nm in ('Exception', 'BaseException') for nm in names):
+                    continue
+                rethrows = h.body and isinstance(h.body[-1], ast.Raise)
+                if rethrows and not any(isinstance(x, (ast.Continue, ast.Return)) for st in h.body for x in ast.walk(st)):
+                    ob.site(rel, h, qual + ': broad handler re-raises')
+                else:
+                    ob.violate(rel, qual, 'except {}: ... (goes on)'.format('/'.join(names)), 'a decode function of the generic CBOR layer catches every exception and carries on (item skipped or field left at its default): '
+                               'an undecodable item vanishes or turns into a default value instead of failing the structure it belongs to', h)
+    ob.site('scapy_cbor/packets.py', tree.module('scapy_cbor/packets.py').tree, 'decode functions of scapy_cbor let failures propagate ({} functions)'.format(n))
